@@ -345,10 +345,18 @@ func (c *Chunker) Chunk(doc *model.Document) (*ChunkResult, error) {
 	sections := c.buildSections(doc)
 
 	// Process each section into chunks
+	// (sub-sections hang off their parent, so walk the whole tree in document order)
 	chunkIndex := 0
-	for _, section := range sections {
+	var walk func(section *Section)
+	walk = func(section *Section) {
 		sectionChunks := c.chunkSection(section, &chunkIndex, doc.Metadata.Title)
 		result.Chunks = append(result.Chunks, sectionChunks...)
+		for _, child := range section.Children {
+			walk(child)
+		}
+	}
+	for _, section := range sections {
+		walk(section)
 	}
 
 	// If no sections were created, chunk by paragraphs
